@@ -250,7 +250,8 @@ REAL_LITS = ["1.0", "0.5", "2.5e3", "1.0e-3", "3.d0", "1.5D+2", "6.02E23", "1.0_
              "4.", "1.e0", "2.0_wp", "7E2"]
 CHAR_LITS = ["'abc'", '"xyz"', "'it''s'", '"say ""hi"""', "'a b  c'", "'!not comment'",
              "'&amp'", "''", "'MiXed Case'", '"semi;colon"', "'(paren'", "'x)'",
-             "k_'pre'", "'1.0e-3'", "'.and.'"]
+             "k_'pre'", "'1.0e-3'", "'.and.'", "'so it stops! It does so just once'", '"a ! b ! c and some more text"',
+             "'don''t & won''t; can''t'"]
 LOG_LITS = [".true.", ".false.", ".TRUE.", ".False.", ".true._lk"]
 BOZ_LITS = ["B'1010'", "O'17'", "Z'FF'", 'z"1a"']
 DEF_OPS = [".myop.", ".cross.", ".X."]
